@@ -34,7 +34,7 @@ theorem list_spec (lay : Layout) (t : Ty) (segs : List Str) :
     · simp [mapE]
     · intro h; exact absurd rfl h
   | x :: xs, i, h => by
-    obtain ⟨colsX, tr, hne, hS, hN, hU, hP, hV⟩ := h 0 x rfl
+    obtain ⟨colsX, tr, hne, hS, hN, hU, hP, hV, _⟩ := h 0 x rfl
     simp only [Nat.add_zero] at hU
     obtain ⟨cols', trs', hU', hK', hN', hP', hV', hE'⟩ := list_spec lay t segs xs (i + 1)
       (fun j y hy => by
@@ -312,13 +312,14 @@ theorem posAll_basic (lay : Layout) (he : lay.excluded = []) (ty : Ty) (hb : isB
 /-- the fields of a record at the position `segs`, from the statement for the field types -/
 theorem model_fields_spec (lay : Layout) (he : lay.excluded = []) (fs : List Field)
     (h2f f2h : List (Str × Str)) (ih : ∀ f ∈ fs, PosAll lay f.2.1)
-    (hrm : remapOk fs h2f f2h = true) (hgf : goodFields fs = true)
+    (hnd : (fs.map (·.1)).Nodup) (hgf : goodFields fs = true)
     (kvs : List (Str × Val)) (segs : List Str) (hsegs : ∀ s ∈ segs, SegOk s) (deep : Bool)
     (hnames : kvs.map Prod.fst = fs.map (·.1)) (hrf : reprFields deep fs kvs = true)
-    (hlay : layOkFields lay f2h (pathStr segs) kvs fs = true) :
+    (hlay : layOkFields lay f2h (pathStr segs) kvs fs = true)
+    (H1 : (((fs.zip (kvs.map Prod.snd)).filter nonDefault).map (hdr f2h)).Nodup)
+    (H2 : ∀ p ∈ fs.zip (kvs.map Prod.snd), nonDefault p = true →
+      simpleName (hdr f2h p) = true ∧ remap h2f (hdr f2h p) = p.1.1) :
     ∃ cols trs, FieldsSpec lay fs h2f f2h segs kvs (fs.zip (kvs.map Prod.snd)) cols trs := by
-  simp only [remapOk, Bool.and_eq_true, List.all_eq_true, decide_eq_true_eq] at hrm
-  obtain ⟨⟨hall, hnd⟩, hndh⟩ := hrm
   have hlen : fs.length = (kvs.map Prod.snd).length := by
     have := congrArg List.length hnames
     simpa using this.symm
@@ -326,45 +327,57 @@ theorem model_fields_spec (lay : Layout) (he : lay.excluded = []) (fs : List Fie
   have hnm : (fs.zip (kvs.map Prod.snd)).map (·.1.1) = fs.map (·.1) := by
     conv => rhs; rw [← hfst]
     simp [List.map_map]
-  have hhm : (fs.zip (kvs.map Prod.snd)).map (hdr f2h) = fs.map (fun f => remap f2h f.1) := by
+  apply fields_spec lay he fs h2f f2h segs hsegs kvs _ (by rw [hnm]; exact hnd) H1
+  intro p hp
+  have hmem : p.1 ∈ fs := (List.of_mem_zip hp).1
+  have hx' := alookup_zip fs kvs hnames hnd p hp
+  refine ⟨hx', ?_⟩
+  intro hnon
+  have hdef : isDefault p.1.2.2 p.2 = false := by simpa [nonDefault] using hnon
+  obtain ⟨x, hx, hor⟩ := reprFields_mem deep kvs fs hrf p.1 hmem
+  rw [hx'] at hx
+  cases hx
+  rcases hor with h | ⟨hfo, hr⟩
+  · rw [h] at hdef; cases hdef
+  obtain ⟨hs2, hs3⟩ := H2 p hp hnon
+  refine ⟨segOk_simple hs2, hs3, fieldLookup_mem fs hnd p.1 hmem, ?_⟩
+  obtain ⟨hl1, hl2⟩ := layOkFields_mem lay f2h (pathStr segs) kvs fs hlay p.1 hmem p.2 hx' hdef
+  have hgt := goodFields_mem fs hgf p.1 hmem
+  by_cases hrm : remap f2h p.1.1 = p.1.1
+  · have := ih p.1 hmem p.2 (segs ++ [hdr f2h p]) false hgt
+      (by
+        intro s hs
+        rcases List.mem_append.mp hs with h | h
+        · exact hsegs s h
+        · simp only [List.mem_singleton] at h; subst h; exact segOk_simple hs2)
+      hr (fieldOk_weaken deep hfo)
+      (by rw [pathStr_snoc]; simp only [hdr, hrm]; exact hl1 hrm)
+    have hW : fieldW lay f2h segs p = unparseRec lay p.1.2.1 p.2 (pathStr (segs ++ [hdr f2h p])) := by
+      funext out
+      simp only [fieldW, hdr, hrm, if_true]
+    unfold PosRT at this
+    rw [hW]
+    exact this
+  · apply colsRT_of_pack (packRT (hl2 hrm) hgt hr (fieldOk_weaken deep hfo))
+    intro out
+    have : ¬ p.1.1 = remap f2h p.1.1 := fun e => hrm e.symm
+    simp only [fieldW, this, if_false, hdr]
+
+/-- the static side conditions on a record type give the value-level ones -/
+theorem remapOk_facts {fs : List Field} {h2f f2h : List (Str × Str)}
+    (hrm : remapOk fs h2f f2h = true) (vs : List Val) (hlen : fs.length = vs.length) :
+    (fs.map (·.1)).Nodup ∧ (((fs.zip vs).filter nonDefault).map (hdr f2h)).Nodup ∧
+    (∀ p ∈ fs.zip vs, simpleName (hdr f2h p) = true ∧ remap h2f (hdr f2h p) = p.1.1) := by
+  simp only [remapOk, Bool.and_eq_true, List.all_eq_true, decide_eq_true_eq] at hrm
+  obtain ⟨⟨hall, hnd⟩, hndh⟩ := hrm
+  have hfst := zip_map_fst fs vs hlen
+  have hhm : (fs.zip vs).map (hdr f2h) = fs.map (fun f => remap f2h f.1) := by
     conv => rhs; rw [← hfst]
     simp [List.map_map, hdr, Function.comp]
-  apply fields_spec lay he fs h2f f2h segs kvs _ (by rw [hnm]; exact hnd)
-  · exact (hhm ▸ hndh).sublist (List.Sublist.map _ List.filter_sublist)
-  · intro p hp
-    have hmem : p.1 ∈ fs := (List.of_mem_zip hp).1
-    have hx' := alookup_zip fs kvs hnames hnd p hp
-    refine ⟨hx', ?_⟩
-    intro hnon
-    have hdef : isDefault p.1.2.2 p.2 = false := by simpa [nonDefault] using hnon
-    obtain ⟨x, hx, hor⟩ := reprFields_mem deep kvs fs hrf p.1 hmem
-    rw [hx'] at hx
-    cases hx
-    rcases hor with h | ⟨hfo, hr⟩
-    · rw [h] at hdef; cases hdef
-    obtain ⟨⟨hs1, hs2⟩, hs3⟩ := hall p.1 hmem
-    refine ⟨segOk_simple hs2, hs3, fieldLookup_mem fs hnd p.1 hmem, ?_⟩
-    obtain ⟨hl1, hl2⟩ := layOkFields_mem lay f2h (pathStr segs) kvs fs hlay p.1 hmem p.2 hx' hdef
-    have hgt := goodFields_mem fs hgf p.1 hmem
-    by_cases hrm : remap f2h p.1.1 = p.1.1
-    · have := ih p.1 hmem p.2 (segs ++ [hdr f2h p]) false hgt
-        (by
-          intro s hs
-          rcases List.mem_append.mp hs with h | h
-          · exact hsegs s h
-          · simp only [List.mem_singleton] at h; subst h; exact segOk_simple hs2)
-        hr (fieldOk_weaken deep hfo)
-        (by rw [pathStr_snoc]; simp only [hdr, hrm]; exact hl1 hrm)
-      have hW : fieldW lay f2h segs p = unparseRec lay p.1.2.1 p.2 (pathStr (segs ++ [hdr f2h p])) := by
-        funext out
-        simp only [fieldW, hdr, hrm, if_true]
-      unfold PosRT at this
-      rw [hW]
-      exact this
-    · apply colsRT_of_pack (packRT (hl2 hrm) hgt hr (fieldOk_weaken deep hfo))
-      intro out
-      have : ¬ p.1.1 = remap f2h p.1.1 := fun e => hrm e.symm
-      simp only [fieldW, this, if_false, hdr]
+  refine ⟨hnd, (hhm ▸ hndh).sublist (List.Sublist.map _ List.filter_sublist), ?_⟩
+  intro p hp
+  obtain ⟨⟨_, hs2⟩, hs3⟩ := hall p.1 (List.of_mem_zip hp).1
+  exact ⟨hs2, hs3⟩
 
 theorem posAll_model (lay : Layout) (he : lay.excluded = []) (fs : List Field)
     (h2f f2h : List (Str × Str)) (ih : ∀ f ∈ fs, PosAll lay f.2.1) :
@@ -386,30 +399,26 @@ theorem posAll_model (lay : Layout) (he : lay.excluded = []) (fs : List Field)
       simp only [reprOk, Bool.and_eq_true, decide_eq_true_eq, Bool.false_and, Bool.not_false,
         Bool.true_and] at hr'
       obtain ⟨⟨hnames, _⟩, hrf⟩ := hr'
-      obtain ⟨cols, trs, hU, hK, hN, hP, hT, hV, hE⟩ :=
-        model_fields_spec lay he fs h2f f2h ih hg.1 hg.2 kvs segs hsegs true hnames hrf hl
-      have hnd : (fs.map (·.1)).Nodup := by
-        have := hg.1
-        simp only [remapOk, Bool.and_eq_true, decide_eq_true_eq] at this
-        exact this.1.2
+      have hlen : fs.length = (kvs.map Prod.snd).length := by
+        have := congrArg List.length hnames
+        simpa using this.symm
+      obtain ⟨hnd, H1, H2⟩ := remapOk_facts hg.1 (kvs.map Prod.snd) hlen
+      obtain ⟨cols, trs, hU, hK, hN, hP, hT, hV, hE, _⟩ :=
+        model_fields_spec lay he fs h2f f2h ih hnd hg.2 kvs segs hsegs true hnames hrf hl H1
+          (fun p hp _ => H2 p hp)
       have hne : cols ≠ [] := by
         intro hc
         have := allDefault_of_pairs hnames hnd (hE hc)
         simp [fieldOk, this] at hfo
-      refine ⟨cols, .dict trs, hne, ?_, hN, ?_, ?_, ?_⟩
+      refine ⟨cols, .dict trs, hne, ?_, hN, ?_, ?_, ?_, by intro h; simp [isBasicVal] at h⟩
       · intro c hc s hs
-        obtain ⟨p, hp, hpn, r, e, hr⟩ := hK c hc
+        obtain ⟨p, hp, hpn, r, e, hr, _⟩ := hK c hc
         rw [e] at hs
         rcases List.mem_cons.mp hs with rfl | hs
-        · have hrm := hg.1
-          simp only [remapOk, Bool.and_eq_true, List.all_eq_true, decide_eq_true_eq] at hrm
-          exact segOk_simple (hrm.1.1 p.1 (List.of_mem_zip hp).1).1.2
+        · exact segOk_simple (H2 p hp).1
         · exact hr s hs
       · intro out hf
         rw [unparseRec_model he fs h2f f2h kvs _ out hm]
-        have hlen : fs.length = (kvs.map Prod.snd).length := by
-          have := congrArg List.length hnames
-          simpa using this.symm
         have := hU out (fun p _ _ => fresh_child hf _)
         rwa [zip_map_fst fs _ hlen] at this
       · cases hc : cols with
@@ -457,7 +466,7 @@ theorem posAll_list (lay : Layout) (he : lay.excluded = []) (t : Ty) (ih : PosAl
         · rw [← idxPrefix_pathStr]
           exact allIdx_get _ _ xs 1 hl j x hx)
       have hcne := hE hne
-      refine ⟨cols, .list trs, hcne, ?_, hN, ?_, ?_, ?_⟩
+      refine ⟨cols, .list trs, hcne, ?_, hN, ?_, ?_, ?_, by intro h; simp [isBasicVal] at h⟩
       · intro c hc s hs
         obtain ⟨j, _, r, e, hr⟩ := hK c hc
         rw [e] at hs
@@ -499,7 +508,7 @@ theorem posAll_any (lay : Layout) (he : lay.excluded = []) : PosAll lay .anyList
       have hsne : ss ≠ [] := by simpa using hne
       obtain ⟨cols, hU, hK, hN, hP, hE⟩ := any_spec lay he segs ss 1 hss
       have hcne := hE hsne
-      refine ⟨cols, .list (ss.map Tree.str), hcne, ?_, hN, ?_, ?_, ?_⟩
+      refine ⟨cols, .list (ss.map Tree.str), hcne, ?_, hN, ?_, ?_, ?_, by intro h; simp [isBasicVal] at h⟩
       · intro c hc s hs
         obtain ⟨j, _, e⟩ := hK c hc
         rw [e] at hs
